@@ -483,6 +483,20 @@ func (f *FS) ZeroRange(p string, off, n int) *FS {
 	return c
 }
 
+// PatchRange returns a copy of the disk in which the bytes at off of file p are replaced by data (same length:
+// nothing is cut or appended).
+func (f *FS) PatchRange(p string, off int, data []byte) *FS {
+	c := f.PowerLoss("", 0, nil)
+	if fl := c.files[p]; fl != nil {
+		for i, b := range data {
+			if off+i < len(fl.data) {
+				fl.data[off+i] = b
+			}
+		}
+	}
+	return c
+}
+
 // UnsyncedWrites lists the writes of the first k logged operations that no
 // later Sync of the same file covers.
 func UnsyncedWrites(log []Op, k int) []Op {
